@@ -51,7 +51,7 @@ P("C01", "exploration",
   ["share points come from the OS RNG and are not controlled: each run samples them afresh",
    "success is only demanded when the monitor itself counts >= t distinct x in the selection (documented share layout)"],
   {"recover": 5000, "decrypt": 5000, "exhaustive_selections": 1000, "encode_decode": 2000},
-  [REL, DEV_T],
+  [REL_LONG, DEV_T],
   "runtime send/reveal ledger monitor over seeded scenarios and exhaustive small-n selections",
   "Held-on-observed: every generated scenario recovered from every selection with >= t distinct shares and every report revealed "
   "exactly its client's (measurement, aux). Exhaustive only over subsets/permutations for n <= 5/6; sampled otherwise.",
@@ -101,7 +101,7 @@ P("C04", "exploration",
   "global injectivity maps for randomness / tag / key. distinct = triples.",
   ["thresholds above 1024 observe sample_local_randomness only (dealing is O(t))", ">= 128-bit values: chance collisions ignored"],
   {"sample_local_randomness": 20000, "combine": 3000, "injectivity_insert": 10000, "share_points_checked": 3000},
-  [REL],
+  [REL_LONG],
   "runtime determinism/injectivity monitor over enumerated neighbour triples",
   "Held-on-observed over ~3e4 triples per quick run incl. all boundary-shift families.",
   "value maps are exact (hash map on full values)")
@@ -133,7 +133,7 @@ P("C06", "exploration",
   ["the order-sensitive check falls back to an order-insensitive multiset comparison of interpolated coefficients",
    "random streams are seeded ChaCha20 plus targeted splices, not all streams"],
   {"deal": 2000, "horner_check": 50000, "recover": 30000, "deal_out_of_range": 300, "zero_point_stream": 100},
-  [REL],
+  [REL_LONG],
   "runtime differential monitor against a BigUint Shamir model with recorded/replayed random streams",
   "Held-on-observed: every dealt share satisfied y = f(x) for the replay-derived polynomials, x != 0, recovery exact.",
   "num-bigint trusted; Fp::random used only to map a recorded word stream to elements")
@@ -283,7 +283,7 @@ P("C16", "exploration",
   "thresholds 127..257 occasionally. distinct = (t, |M|, |R|, content classes).",
   ["a transcript equal to the default is not asserted (would copy an internal label)"],
   {"share": 20000, "recover": 3000, "recover_mixed": 1000, "recover_t0": 100, "recover_foreign_transcript": 300},
-  [REL],
+  [REL_LONG],
   "runtime determinism / re-share monitor with independent layout and BigUint polynomial checks",
   "Held-on-observed over 6e3 sharings per quick run.",
   "layout parser + BigUint trusted")
@@ -297,7 +297,7 @@ P("C17", "exploration",
   "create_share calls whose epoch||measurement bytes coincide (boundary shifts). distinct = (t, measurement length, epoch).",
   ["star-wasm is built as an rlib and called natively (wasm-bindgen glue not exercised)"],
   {"create_share": 10000, "group_shares": 3000, "group_shares_below_threshold": 1000, "group_shares_mixture": 1000, "group_shares_wrong_epoch": 3000},
-  [REL],
+  [REL_LONG],
   "runtime wrapper-faithfulness monitor against the core library",
   "Held-on-observed over 5e3 cases per quick run.",
   "core library behaviour itself is covered by C01/C02/C04")
@@ -319,7 +319,7 @@ P("C18", "exploration",
 # workload classes added after the later seeded-change rounds (DESIGN.md section 11)
 _RULE_ADDENDA = {
     "C01": " Plus replay floods: one report repeated 65 535..131 072 times in front of the other t-1 (thorough more); an every-threshold "
-           "sweep (t clients, exactly t reports in shuffled order, t = 1..320, thorough 1..1400); text values entering through From<&str>, "
+           "sweep (t clients, exactly t reports in shuffled order, t = 1..320, thorough 1..1024); text values entering through From<&str>, "
            "with white space at their edges.",
     "C02": " Plus foreign sharings whose (measurement, epoch) is the target's with a separator byte shifted across the boundary, near "
            "measurements differing beyond byte 64, large thresholds also 1025/1100, the adss-level relation C^D == M^R, and a bit-balance "
@@ -333,7 +333,7 @@ _RULE_ADDENDA = {
     "C05": " Plus element faults (0, 1, p-1, 2^128) on x / y, random-length sharings, and floods: an altered or foreign first share, "
            "65 535..131 073 repeats, then another whole sharing.",
     "C06": " Plus zero runs of 1..300 draws at the point draw, the public evaluator over polynomials of mixed degrees, iterator adaptors "
-           "(nth, skip, step_by), an every-threshold sweep (1..320, thorough 1..1400), one dealer asked for 65 537..131 080 sequential "
+           "(nth, skip, step_by), an every-threshold sweep (1..320, thorough 1..1024), one dealer asked for 65 537..131 080 sequential "
            "shares, the thread-RNG convenience dealer with a run-global set of its coefficients, and rejection runs (1..100) in the recorded stream.",
     "C07": " Plus a,b,a operation sequences (inversion, evaluator) and canonical elements of the band [2^128, p) through the share path.",
     "C08": " Plus canonical elements of the band [2^128, p) in every generated share and giant shares (43 689..100 000 elements).",
@@ -349,9 +349,9 @@ _RULE_ADDENDA = {
     "C15": " Plus the same JSON value with members reordered / re-spaced, valid-after-invalid loads, request points neutral element / "
            "base point; acceptance is demanded only of encodings of group elements.",
     "C16": " Plus six refused collection shapes (no y, threshold 0, sub-threshold, ...) each followed at once by an honest recovery, "
-           "an every-threshold sweep (t independent share() calls, t = 1..320, thorough 1..1400), and shares of the same sharing on chosen "
+           "an every-threshold sweep (t independent share() calls, t = 1..320, thorough 1..1024), and shares of the same sharing on chosen "
            "structured points incl. pairs congruent mod 2^128.",
-    "C17": " Plus empty vs NUL measurements and an every-threshold sweep (1..700, thorough 1..1400).",
+    "C17": " Plus empty vs NUL measurements and an every-threshold sweep (1..700, thorough 1..1024).",
     "C18": " Plus sibling measurements differing in trailing zeros, long aux, and a poisoned batch on the same server object before the "
            "honest runs; every small batch composition around the threshold ([t], [t-1], [t+1], [t,1], t singletons, [t,t], ...; t = 1..8); "
            "epochs with edge white space, multi-byte characters, 200+ bytes.",
